@@ -138,8 +138,14 @@ void get_reg_str(char *opd_str, char *reg) {
       break;
     if (j < 1 && IN_RANGE(opd_str[i], 'a', 'z'))
       reg[j++] = opd_str[i];
-    if (j > 4)
+    if (j > 4) {
+      // no register name has more than five characters: a longer token must
+      // not be mistaken for the register its first five characters spell
+      if (i + 1 < len && (IN_RANGE(opd_str[i + 1], 'a', 'z') ||
+                          IN_RANGE(opd_str[i + 1], '0', '9')))
+        reg[0] = '?';
       break;
+    }
   }
 }
 
